@@ -2,7 +2,19 @@
 package c17
 
 import (
+	"bufio"
+	"bytes"
+	"fmt"
+	"os"
+	"os/exec"
+	"path/filepath"
+	"strings"
 	"testing"
+	"time"
+
+	filehandler "github.com/goblimey/go-ntrip/file_handler"
+	"github.com/goblimey/go-ntrip/jsonconfig"
+	"github.com/goblimey/go-ntrip/rtcm/handler"
 
 	"pgregory.net/rapid"
 	"vh/stats"
@@ -16,5 +28,134 @@ func TestMain(m *testing.M) { R.Main(m) }
 var prop = stats.Prop(R, "history", func(t *rapid.T) timecase.Case { return timecase.Gen(t, true) }, timecase.Check)
 
 func TestHistory(t *testing.T) { rapid.Check(t, prop) }
+
+// ---- through the file handler, the same file handler object serving two sources one after the other
+
+type ReuseCase struct {
+	First  timecase.Case `json:"first"`
+	Second timecase.Case `json:"second"`
+}
+
+func checkReuse(c ReuseCase, o *stats.Obs) error {
+	fh := filehandler.New(nil, &jsonconfig.Config{})
+	feed := func(start time.Time, frames [][]byte) ([]handler.Message, error) {
+		ch := make(chan handler.Message, len(frames)+4)
+		fh.MessageChan = ch
+		var input []byte
+		for _, f := range frames {
+			input = append(input, f...)
+		}
+		done := make(chan struct{})
+		go func() { fh.Handle(start, bufio.NewReader(bytes.NewReader(input))); close(done) }()
+		var out []handler.Message
+		timeout := time.After(30 * time.Second)
+		for {
+			select {
+			case m, ok := <-ch:
+				if !ok {
+					<-done
+					return out, nil
+				}
+				out = append(out, m)
+			case <-timeout:
+				return nil, fmt.Errorf("file handler did not finish")
+			}
+		}
+	}
+	if err := timecase.CheckVia(c.First, o, feed); err != nil {
+		return fmt.Errorf("first source through the file handler: %v", err)
+	}
+	o2 := &stats.Obs{}
+	if err := timecase.CheckVia(c.Second, o2, feed); err != nil {
+		o.Key = "second-source/" + o2.Key
+		return fmt.Errorf("second source through the SAME file handler object (its own start time must be honoured): %v", err)
+	}
+	o.NonTrivial = true
+	o.Classes = append(o.Classes, "file-handler-reused")
+	return nil
+}
+
+func genReuse(t *rapid.T) ReuseCase {
+	return ReuseCase{First: timecase.Gen(t, true), Second: timecase.Gen(t, true)}
+}
+
+var propReuse = stats.Prop(R, "file-handler-reuse", genReuse, checkReuse)
+
+func TestFileHandlerReuse(t *testing.T) { rapid.Check(t, propReuse) }
+
+// ---- through the displayrtcm3 program with a yyyy-mm-dd argument, under different local time zones
+
+type DisplayCase struct {
+	History timecase.Case `json:"history"` // start = 00:00 UTC of the date given on the command line
+	TZ      string        `json:"tz"`
+}
+
+var runNo int
+
+func checkDisplay(c DisplayCase, o *stats.Obs) error {
+	bin := os.Getenv("VERIF_APP_DISPLAYRTCM3")
+	if bin == "" {
+		o.Skip = true
+		return nil
+	}
+	feed := func(start time.Time, frames [][]byte) ([]handler.Message, error) {
+		runNo++
+		dir := filepath.Join(os.Getenv("VERIF_SCRATCH"), fmt.Sprintf("disp-%d", runNo))
+		os.MkdirAll(dir, 0o755)
+		defer os.RemoveAll(dir)
+		var input []byte
+		for _, f := range frames {
+			input = append(input, f...)
+		}
+		file := filepath.Join(dir, "data.rtcm")
+		os.WriteFile(file, input, 0o644)
+		cmd := exec.Command(bin, file, start.UTC().Format("2006-01-02"))
+		cmd.Env = append(os.Environ(), "TZ="+c.TZ)
+		out, err := cmd.Output()
+		if err != nil {
+			return nil, fmt.Errorf("displayrtcm3 failed: %v", err)
+		}
+		// one "Time ..." line and one "Start of ..." line per MSM message, in order
+		var msgs []handler.Message
+		var cur *handler.Message
+		for _, l := range strings.Split(string(out), "\n") {
+			switch {
+			case strings.HasPrefix(l, "Time "):
+				msgs = append(msgs, handler.Message{SentAt: l})
+				cur = &msgs[len(msgs)-1]
+			case strings.HasPrefix(l, "Start of ") && cur != nil && cur.StartOfWeek == "":
+				cur.StartOfWeek = l
+			}
+		}
+		return msgs, nil
+	}
+	// the program reports neither the raw timestamp nor errors as fields: compare the two time lines only
+	h := c.History
+	var legal []timecase.Obs
+	for _, ob := range h.Msgs {
+		if ob.Illegal == 0 {
+			legal = append(legal, ob)
+		}
+	}
+	h.Msgs = legal
+	if len(legal) == 0 {
+		o.Skip = true
+		return nil
+	}
+	if err := timecase.CheckDisplayed(h, o, feed); err != nil {
+		return fmt.Errorf("displayrtcm3 <file> %s with TZ=%s: %v", h.Start().UTC().Format("2006-01-02"), c.TZ, err)
+	}
+	o.Classes = append(o.Classes, "display-program/TZ="+c.TZ, "date-is-"+h.Start().UTC().Weekday().String())
+	return nil
+}
+
+func genDisplay(t *rapid.T) DisplayCase {
+	return DisplayCase{History: timecase.GenAt(t, true, true),
+		TZ: rapid.SampledFrom([]string{"UTC", "Europe/London", "America/Los_Angeles", "Asia/Tokyo", "Australia/Sydney", "Pacific/Kiritimati", "Europe/Moscow"}).Draw(t, "tz")}
+}
+
+var propDisplay = stats.Prop(R, "display-program", genDisplay, checkDisplay)
+
+func TestDisplayProgram(t *testing.T) { rapid.Check(t, propDisplay) }
 
 func TestReplay(t *testing.T) { R.Replay(t) }
